@@ -34,7 +34,7 @@ REAL = ['glue.core.data.Data mutation API', 'glue.core.component_id', 'glue.core
 STUB = ['recording HubListener', 'uuid and identity-hash streams']
 ASSUMPTIONS = ['messages are compared only when no delay window is open', 'generator guard of the open finding excludes update_values_from_data with a different number of dimensions', 'sampling, not proof']
 PROBES = ['rejected_add_wrong_shape', 'rejected_reorder', 'rejected_update_wrong_shape', 'partial_update_then_reject', 'cascade_remove', 'coords_replaced',
-          'coords_removed', 'update_from_new_shape', 'update_from_label_mismatch', 'ops_in_delay_window', 'outside_collection', 'rename', 'update_id', 'joined_collection_later', 'identifier_of_rejected_add_reused', 'flipflop_reorder', 'flipflop_remove_add', 'flipflop_update_id']
+          'coords_removed', 'update_from_new_shape', 'update_from_label_mismatch', 'ops_in_delay_window', 'outside_collection', 'rename', 'update_id', 'joined_collection_later', 'identifier_of_rejected_add_reused', 'flipflop_reorder', 'flipflop_remove_add', 'flipflop_update_id', 'update_id_of_coordinate']
 
 WEIGHTS = {'add': 5, 'add_bad': 1.5, 'add_derived': 3, 'remove': 3, 'reorder': 2, 'reorder_bad': 1, 'rename': 2, 'update_id': 1.5, 'upd': 3, 'upd_bad': 1,
            'upd_partial': 1, 'upd_from': 2, 'coords': 2, 'label': 1, 'delay_open': 1, 'delay_close': 1.5, 'new': 0.7, 'append': 1, 'flipflop': 1.2}
@@ -60,8 +60,12 @@ def generate(rng, cfg, guards):
                 ops.append(['rename', ops[-1][1], -1])
         elif k == 'add_derived':
             ops.append([k, r8(), r8(), rng.pick(sorted(LF.ONE))])
-        elif k in ('remove', 'update_id'):
+        elif k == 'remove':
             ops.append([k, r8(), r8()])
+        elif k == 'update_id':
+            ops.append([k, r8(), r8(), rng.chance(0.3)])
+            while rng.chance(0.3):
+                ops.append([k, ops[-1][1], -1, False])      # the identifier just installed is replaced again
         elif k == 'reorder':
             ops.append([k, r8(), rng.randrange(10000)])
         elif k == 'reorder_bad':
@@ -185,6 +189,7 @@ def execute(case, res):
     replaces = []
     rejected = []
     last_added = [None]
+    last_new = [None]
 
     def pick(h):
         return datasets[h % len(datasets)] if datasets else None
@@ -318,9 +323,18 @@ def execute(case, res):
                 if d is None:
                     continue
                 cs = list(d.main_components)
+                if len(op) > 3 and op[3]:
+                    # pixel and world attributes can be re-identified as well
+                    cs = list(d.pixel_component_ids) + list(d.world_component_ids)
+                    res.probe('update_id_of_coordinate')
                 old = cs[op[2] % len(cs)]
+                if op[2] == -1:
+                    if last_new[0] is None or not any(last_new[0] is x for x in d.components):
+                        continue
+                    old = last_new[0]
                 nname[0] += 1
                 new = ComponentID('u%d' % nname[0])
+                last_new[0] = new
                 keep.append(new)
                 if 'C17-update-id-derived' in w.guards and any(
                         any(old is f for f in d.get_component(x).link.get_from_ids()) for x in d.derived_components):
